@@ -51,7 +51,7 @@ OpT = Sum("op", M, {"OAddNodeLabel": Nat, "OAddEdgeLabel": Box(ElabelT), "OAddDo
 OutcomeT = Sum("outcome", M, {"RNone": None, "RDom": DomainT, "RFac": FactorT, "RShape": List(Option(Nat)), "RErr": ExnT})
 StateT = Tup(List(Nat), List(ElabelT), List(Tup(Nat, DomainT)), List(Tup(Nat, FactorT)))
 
-DomCaseT = Tup(DctorT, List(ValueT), List(ValueT),
+DomCaseT = Tup(DctorT, List(Tup(ValueT, Bool)), List(ValueT),
                Tup(DomainT, Option(Nat), List(Res(Bool)), List(Res(ValueT)), List(Res(ValueT)),
                    List(Tup(DomainT, Tup(Bool, Bool)))))
 FacCaseT = Tup(FctorT, Res(FactorT), List(Tup(List(ValueT), Res(TensorT))), List(Tup(FactorT, Bool)))
@@ -62,12 +62,12 @@ FAC = CheckFn("c20fac", "Model.Domain", "fac_check", FacCaseT)
 BIND = CheckFn("c20bind", "Model.Domain", "bind_check", BindCaseT)
 CHECKFNS = [DOM, FAC, BIND]
 
-F21 = "C20_range_contains_nonintegral"      # the only known finding left (F14, F15 are fixed in /repo)
-
-OPEN_ITEMS = ["RangeDomain.contains accepts non-integers (known finding C20_range_contains_nonintegral): C20_range_contains_refuted + C20_range_contains_integral under the guard; no unproved theorem, no bounded theorem"]
+# no known finding is left: F14 (19d007a), F15 (7d2f845) and RangeDomain.contains on non-integers
+# (973b650) are repaired in /repo; the check has no finding_key and no special verdict code
+OPEN_ITEMS = []
 
 ASSUMPTIONS = [
-    "Python values are canonicalised by the harness: int/bool/finite float to the reduced rational they denote (so 1 == 1.0 == True coincide), every other hashable value to a code such that codes are equal iff the values are == (assigned through a dict, i.e. by hash and ==); the int/float distinction is therefore not modelled and floats are never used where an index is expected",
+    "Python values are canonicalised by the harness: int/bool/finite float to the reduced rational they denote (so 1 == 1.0 == True coincide), every other hashable value to a code such that codes are equal iff the values are == (assigned through a dict, i.e. by hash and ==); where the code observes the difference (RangeDomain.contains: isinstance(value, int)) the probe carries the flag isinstance(value, int); floats are never used where an index is expected",
     "a PatternedTensor given as weights is modelled by the dense tensor it denotes (to_dense()); the patterned representation itself is C06/C13's subject.  Dense, PatternedTensor.eye and PatternedTensor.full inputs are generated",
     "weights are dyadic rationals exactly representable in float32; tensors are compared exactly (as rationals) inside Coq",
     "torch.tensor(nested lists) is modelled from the observed behaviour of torch's compute_sizes / recursive_store (sizes from the first elements, lengths validated only for non-empty tensors)",
@@ -205,7 +205,7 @@ def run_dom(spec):
     for o in spec["others"]:
         od = d if o == "self" else build_dom(o)
         ieqs.append((obs_dom(od, cn), (bool(d == od), bool(d != od))))
-    return (dctor_w(spec["dom"], cn), [cn.v(p) for p in probes], [cn.v(a) for a in dargs],
+    return (dctor_w(spec["dom"], cn), [(cn.v(p), isinstance(p, int)) for p in probes], [cn.v(a) for a in dargs],
             (obs_dom(d, cn), size_w(d.size()), icont, inum, iden, ieqs))
 
 def run_fac(spec):
@@ -686,8 +686,7 @@ def gen_bind_cases(rng, tier):
 
 # ----------------------------------------------------------------------------
 
-DOM_MSG = {1: "a FiniteDomain/RangeDomain answer violates C20_bijection (verified oracle bij_oracle / range_oracle / eq_oracle rejects it)",
-           5: "RangeDomain.contains accepts a non-integer inside [0, size) although no denumberize(n) yields it"}
+DOM_MSG = {1: "a FiniteDomain/RangeDomain answer violates C20_bijection (verified oracle bij_oracle / range_oracle / eq_oracle rejects it)"}
 FAC_MSG = {1: "a FiniteFactor answer violates C20_shape (verified oracle ctor_oracle / apply_oracle / fac_eqb rejects it)"}
 BIND_MSG = {1: "an InterpretationMixin call violates C20_binding (verified oracle bind_spec / domain_spec / shape_of rejects its outcome)"}
 
@@ -713,15 +712,14 @@ def obs_summary(kind, v):
 
 RUNNERS = {"dom": (run_dom, DOM), "fac": (run_fac, FAC), "bind": (run_bind, BIND)}
 
-KNOWN_CODES = {"c20dom": (5,)}      # verdicts that merely hit a known finding (per check function)
 MAX_REPORTED = 150                  # per non-zero verdict code
 
-def run_model_c20(cf, values, seed, coq_sample=8, per_known=4):
+def run_model_c20(cf, values, seed, coq_sample=8):
     """All cases through the extracted driver.  Inside Coq (vm_compute, parallel shards):
-    EVERY case whose non-zero verdict is going to be reported as a violation, a sample of the
-    zero verdicts, and a sample of the verdicts that merely hit a known finding; both evaluations
-    must agree.  Coq elaborates only ~10 kB of case text per second, so at most MAX_REPORTED cases
-    (the smallest) per non-zero code are reported and re-evaluated; the others are only counted.
+    EVERY case whose non-zero verdict is going to be reported as a violation and a sample of the
+    zero verdicts; both evaluations must agree.  Coq elaborates only ~10 kB of case text per
+    second, so at most MAX_REPORTED cases (the smallest) per non-zero code are reported and
+    re-evaluated; the others are only counted.
     Returns (codes, number re-evaluated, set of indices to report, {code: count not reported})."""
     codes = run_ocaml(cf, values)
     rng = random.Random(seed * 7919 + 13)
@@ -730,15 +728,11 @@ def run_model_c20(cf, values, seed, coq_sample=8, per_known=4):
     def sz(i):
         if i not in size: size[i] = len(cf.ty.sexp(values[i]))
         return size[i]
-    known = KNOWN_CODES.get(cf.kind, ())
     pick, report, dropped = set(), set(), {}
     for c in sorted({c for c in codes if c != 0}):
         bad = sorted((i for i in idx if codes[i] == c), key=sz)
-        if c in known:
-            pick.update(bad[:per_known]); report.update(bad)
-        else:
-            pick.update(bad[:MAX_REPORTED]); report.update(bad[:MAX_REPORTED])
-            if len(bad) > MAX_REPORTED: dropped[c] = len(bad) - MAX_REPORTED
+        pick.update(bad[:MAX_REPORTED]); report.update(bad[:MAX_REPORTED])
+        if len(bad) > MAX_REPORTED: dropped[c] = len(bad) - MAX_REPORTED
     rest = [i for i in idx if codes[i] == 0]
     rng.shuffle(rest)
     pick.update(sorted(rest[:3 * coq_sample], key=sz)[:coq_sample])     # random, biased to cases Coq elaborates quickly
@@ -764,7 +758,7 @@ def run(tier, seed):
     rng = random.Random(seed)
     violations = []
     gens = {"dom": gen_dom_cases(rng, tier), "fac": gen_fac_cases(rng, tier), "bind": gen_bind_cases(rng, tier)}
-    msgs = {"dom": (DOM_MSG, {5: F21}), "fac": (FAC_MSG, {}), "bind": (BIND_MSG, {})}
+    msgs = {"dom": (DOM_MSG, {}), "fac": (FAC_MSG, {}), "bind": (BIND_MSG, {})}
     calls = {"dom": "FiniteDomain(...)/RangeDomain(...): size, contains, numberize, denumberize, ==, !=",
              "fac": "FiniteFactor(doms, weights) / ConstantFactor; .apply(values); ==",
              "bind": "FactorGraph()/FGG('S'): add_domain, add_factor, new_finite_domain, new_finite_factor, shape, add_edge_label"}
@@ -805,7 +799,7 @@ def run(tier, seed):
                     "bind: every pairing of an edge label (terminal/nonterminal, type over {A,B}, arity 0..3) with a factor (domains over {D2, D3, R2}, arity 0..3) under pre-states (label unregistered / registered / clashing / nonterminal clash / already bound; node labels mapped to equal / different / no domain), all matching pairings under every pre-state, equal-by-content vs different domain in every position, new_finite_domain / new_finite_factor grids, random histories; FactorGraph and FGG alternate; shape() on label lists, tuples, node lists, EdgeLabel, Edge. "
                     "non-trivial = domain of size >= 2 (or range size >= 2), factor of rank >= 1, history with >= 3 calls including a factor binding; distinct by spec",
                samples=samples, phase_seconds=phase, generator_histogram=hist, verdict_histogram=verdicts, kernel_reevaluated=nk_total,
-               kernel_policy="every reported violation is re-evaluated with vm_compute; zero verdicts and known-finding hits are sampled",
+               kernel_policy="every reported violation is re-evaluated with vm_compute; zero verdicts are sampled",
                nonzero_verdicts_counted_but_not_reported=unreported,
                open_items=OPEN_ITEMS)
     return cov, violations
@@ -830,7 +824,7 @@ def core_jsonable(x):
 
 MANIFEST = dict(
     level="proof",
-    text="Coq theorems about a Gallina model that follows fggs/domains.py, fggs/factors.py and InterpretationMixin statement by statement: C20_bijection (numberize/denumberize mutually inverse between distinct values and 0..size-1, contains agrees, equality by content; RangeDomain on the integers), C20_shape (a FiniteFactor accepts exactly weights of shape map size domains; apply is the weight at the row-major position of the numberized values; factor equality by domains and elementwise weights), C20_binding (add_factor succeeds iff terminal, label table consistent, arities agree, every node label mapped to an equal domain, label not already bound), all at full strength for any iterable of values (F14 and F15 are repaired in /repo 19d007a / 7d2f845; their refutations are kept only about the explicitly named old definitions) -- plus the refutation witness and guarded theorem for RangeDomain.contains on non-integers (known finding).  The model is tied to /repo by running both on generated domains, factors and call histories; boolean oracles proved sound in Coq judge every implementation answer.",
+    text="Coq theorems about a Gallina model that follows fggs/domains.py, fggs/factors.py and InterpretationMixin statement by statement: C20_bijection (numberize/denumberize mutually inverse between distinct values and 0..size-1, contains agrees, equality by content; RangeDomain on the integers), C20_shape (a FiniteFactor accepts exactly weights of shape map size domains; apply is the weight at the row-major position of the numberized values; factor equality by domains and elementwise weights), C20_binding (add_factor succeeds iff terminal, label table consistent, arities agree, every node label mapped to an equal domain, label not already bound), all at full strength for any iterable of values (F14 and F15 are repaired in /repo 19d007a / 7d2f845; their refutations are kept only about the explicitly named old definitions), and RangeDomain.contains holds exactly for the ints a denumberize yields (repaired in /repo 973b650; Python values are modelled as equality class + isinstance-int flag).  No known finding is left.  The model is tied to /repo by running both on generated domains, factors and call histories; boolean oracles proved sound in Coq judge every implementation answer.",
     note="Trusted: Coq kernel + vm_compute, extraction cross-checked against vm_compute, the Python harness that canonicalises values (numbers to rationals, other hashables to codes by ==) and observes object attributes; PatternedTensor inputs are modelled by their dense denotation.",
     technique="Coq proof (model + theorems) + model/implementation correspondence with verified-spec oracle",
     design_ref="DESIGN.md section 6, C20")
